@@ -223,6 +223,9 @@ def main():
             oracle("slice-then-index", lambda s: s[0:n][n - 1], x)
             oracle("concat-then-slice", lambda s: (s + type(x)([s[0]]))[1:], x)
             oracle("radd-then-index", lambda s: (type(x)([s[-1]]) + s)[0], x)
+            oracle("radd-whole", lambda s: type(x)([s[-1]]) + s, x)
+            oracle("radd-constant-whole", lambda s: type(x)([2.0]) + s, x)
+            oracle("add-constant-whole", lambda s: s + type(x)([2.0, onp.ones(2)]), x)
             oracle("nested-make", lambda s: alist([atuple([s[0], s[0]]), adict({1: s[-1]})]), x)
         # flatten commutes with grad; flatten/unflatten inverse and linear
         fx, unflatten = flatten(x)
@@ -331,7 +334,12 @@ def main():
     for i in range(cfg["n_oracle"]):
         leaves = tuple(float(rng.randint(1, 3)) for _ in range(rng.randint(2, 3)))
         cont = rng.choice([tuple, list])(leaves)
-        uses = [rng.choice(["dense+", "dense+", "rdense+", "index", "index", "slice"]) for _ in range(rng.randint(3, 5))]
+        uses = [rng.choice(["dense+", "rdense+", "cdense+", "cdense+", "crdense+", "index", "index", "slice"]) for _ in range(rng.randint(3, 5))]
+        if i % 4 == 0:     # the indexed uses first, then only whole-container uses: the dense cotangents are summed before any indexed one arrives
+            uses = sorted(uses, key=lambda u: 0 if u in ("index", "slice") else 1)
+            uses = [u if u in ("index", "slice") else ("cdense+" if j % 2 else "crdense+") for j, u in enumerate(uses)]
+            if uses[0] not in ("index", "slice"):
+                uses[0] = "index"
         wts = [float(rng.randint(1, 4)) for _ in uses]
         kidx = [rng.randrange(len(leaves)) for _ in uses]
 
@@ -342,6 +350,10 @@ def main():
                     tot = tot + w * sum(e for e in (t + type(cont)([t[k]])))
                 elif u == "rdense+":
                     tot = tot + w * sum(e for e in (type(cont)([t[k]]) + t))
+                elif u == "cdense+":
+                    tot = tot + w * sum(e for e in (t + type(cont)([5.0])))
+                elif u == "crdense+":
+                    tot = tot + w * sum(e for e in (type(cont)([7.0]) + t))
                 elif u == "index":
                     tot = tot + w * t[k] * t[k]
                 else:
@@ -353,6 +365,9 @@ def main():
                 for j in range(len(leaves)):
                     want[j] += w
                 want[k] += w
+            elif u in ("cdense+", "crdense+"):
+                for j in range(len(leaves)):
+                    want[j] += w
             elif u == "index":
                 want[k] += 2.0 * w * leaves[k]
             else:
